@@ -366,9 +366,10 @@ Definition exec (m : mode) (p : pc) (w : world) : outcome :=
       if lctx_done w && negb (l_closing w) then                                (* select <-ctx.Done(): Set(stateClosing) *)
         Step (upd_lsn w true (l_closed w) (l_wakec w) (l_done w) (sock_closed w) (lctx_done w)) LT0
       else if l_closed w || l_closing w then Step w LT1                        (* if Closing() break *)
-      else if l_nil w && l_repl w then Blocked                                 (* socket nil, being replaced: nap 30 ms, continue *)
-      else if l_nil w then Fault NilSocket                                     (* l.listener.Accept() on a nil socket *)
-      else Blocked                                                             (* in Accept (an error while Replacing: continue) *)
+      else if l_nil w then Blocked                                             (* v := l.listener; v == nil: nap 30 ms, continue (fab1fe0:
+                                                                                  the socket is read once, before it was tested for nil together
+                                                                                  with Replacing and read again for Accept) *)
+      else Blocked                                                             (* in v.Accept() (an error while Replacing: continue) *)
   | LT1 => Step (upd_lsn w (l_closing w) (l_closed w) true (l_done w) (sock_closed w) true) LT2
   | LT2 =>                                                                     (* if l.listener != nil { l.listener.Close() } *)
       Step (if l_nil w then w else upd_lsn w (l_closing w) (l_closed w) (l_wakec w) (l_done w) true (lctx_done w)) LT3
